@@ -1064,6 +1064,8 @@ def gen_adversarial(rng, d, n_ops):
             if op["op"] == "SD":
                 need[op["d"]] = 0
         ops.append(op)
+    if not ops:
+        ops = [{"op": "Q", "b": False}]
     return {"cap": d["cap"], "ops": ops, "legal": False, "drained": False, "wpaths": [], "mpaths": [], "kind": "adversarial"}
 
 
@@ -1120,6 +1122,7 @@ def run_batch(sc, binary, cases, tag, d, scale=1):
         if r.get("panic"):
             pre[i] = [(0, 9, "panic: " + r["panic"])]
             continue
+        r["obs"] = r.get("obs") or []
         notes = [(j, o["note"]) for j, o in enumerate(r["obs"]) if o.get("note")]
         stuck = [x for x in notes if "stuck" in x[1]]
         if stuck:
@@ -1143,7 +1146,7 @@ def run_batch(sc, binary, cases, tag, d, scale=1):
             "Definition cases : list obs_case := [\n" + ";\n".join(terms) + "\n].\n"
             "Definition R := Eval vm_compute in map (check_case gen_tables) cases.\nPrint R.\n"
             "Definition S := Eval vm_compute in map (case_signature gen_tables) cases.\nPrint S.\n")
-    ok, outtxt = vlib.coq_eval("C20_cases_%s" % tag, text)
+    ok, outtxt = vlib.coq_eval("C20_cases_%s" % tag, text, timeout=3600)   # a loaded machine must not turn into a verdict
     if not ok:
         return None, None, None, "coq evaluation failed: " + outtxt[-2000:]
     m = re.search(r"R\s*=\s*(.*?)\n\s*:\s*list", outtxt, re.S)
@@ -1332,7 +1335,7 @@ def main(argv):
 
         all_err, sigs, all_res = {}, {}, {}
         tie_broken = None
-        shard = 1200
+        shard = 600
         for s in range(0, len(cases), shard):
             errs, sg, rs, err = run_batch(sc, binary, cases[s:s + shard], "b%d" % s, d)
             if err:
